@@ -562,3 +562,176 @@ Proof.
   rewrite Hl2, Nat.add_0_r, firstn_app, Nat.sub_diag, firstn_all. cbn [firstn]. rewrite app_nil_r.
   pose proof (HP2 [] eq_refl) as H. rewrite app_nil_r in H. exact H.
 Qed.
+
+(* ================= instance 2: no empty line before the terminating one (C03) ================= *)
+Section Framing.
+Variable hc : hcfg.
+Let spb := allow_space_before_first_header_name hc.
+
+Definition Pf (q : list N) : Prop :=
+  q <> [] /\
+  (forall t, not_eol_start t = true -> blank_free t = true -> blank_free (q ++ t) = true) /\
+  (spb = false -> last q 0%N = 10%N).
+
+Lemma last_cons_ne (b : N) q : q <> [] -> last (b :: q) 0%N = last q 0%N.
+Proof. destruct q; [congruence|reflexivity]. Qed.
+
+Lemma last_app_ne (a b : list N) : b <> [] -> last (a ++ b) 0%N = last b 0%N.
+Proof.
+  intros Hb. induction a as [|x a IH]; [reflexivity|]. cbn [app]. rewrite last_cons_ne; [exact IH|].
+  destruct a; cbn [app]; [exact Hb|discriminate].
+Qed.
+
+Lemma Pf_plain b q : plain b = true -> Pf q -> Pf (b :: q).
+Proof.
+  intros Hb (Hne & H & Hl). split; [discriminate|split].
+  - intros t Ht Hf. cbn [app]. rewrite blank_free_plain by exact Hb. apply H; assumption.
+  - intros Hs. rewrite last_cons_ne by exact Hne. apply Hl. exact Hs.
+Qed.
+Lemma Pf_lf : Pf [10%N].
+Proof.
+  split; [discriminate|split].
+  - intros t Ht Hf. cbn [app]. rewrite blank_free_cons. change (is 10 10) with true. cbn [negb orb]. rewrite Ht, Hf. reflexivity.
+  - reflexivity.
+Qed.
+Lemma Pf_crlf : Pf [13%N; 10%N].
+Proof.
+  split; [discriminate|split].
+  - intros t Ht Hf. cbn [app]. rewrite !blank_free_cons. change (is 10 13) with false. change (is 10 10) with true.
+    cbn [negb orb andb]. rewrite Ht, Hf. reflexivity.
+  - reflexivity.
+Qed.
+Lemma Pf_fold_crlf b q : ws b = true -> Pf (b :: q) -> Pf (13%N :: 10%N :: b :: q).
+Proof.
+  intros Hw (Hne & H & Hl). pose proof (ws_plain b Hw) as Hp. split; [discriminate|split].
+  - intros t Ht Hf. cbn [app]. rewrite !blank_free_cons. change (is 10 13) with false. change (is 10 10) with true.
+    cbn [negb orb andb]. rewrite (not_eol_plain b (q ++ t) Hp). apply (H t Ht Hf).
+  - intros Hs. change (13%N :: 10%N :: b :: q) with ([13%N; 10%N] ++ (b :: q)). rewrite last_app_ne by discriminate. apply Hl. exact Hs.
+Qed.
+Lemma Pf_fold_lf b q : ws b = true -> Pf (b :: q) -> Pf (10%N :: b :: q).
+Proof.
+  intros Hw (Hne & H & Hl). pose proof (ws_plain b Hw) as Hp. split; [discriminate|split].
+  - intros t Ht Hf. cbn [app]. rewrite blank_free_cons. change (is 10 10) with true. cbn [negb orb].
+    rewrite (not_eol_plain b (q ++ t) Hp). apply (H t Ht Hf).
+  - intros Hs. change (10%N :: b :: q) with ([10%N] ++ (b :: q)). rewrite last_app_ne by discriminate. apply Hl. exact Hs.
+Qed.
+Lemma Pf_ws_run : allow_space_before_first_header_name hc = true ->
+  forall w, w <> [] -> Forall (fun b => ws b = true) w -> Pf w.
+Proof.
+  intros Hs w Hne Hw. split; [exact Hne|split].
+  - intros t Ht Hf. clear Hne. induction Hw as [|x w Hx Hw IH]; [exact Hf|]. cbn [app].
+    rewrite blank_free_plain by (apply ws_plain; exact Hx). exact IH.
+  - unfold spb. rewrite Hs. discriminate.
+Qed.
+
+Definition header_line_framed := ref_header_line_P hc Pf Pf_plain Pf_lf Pf_crlf Pf_fold_crlf Pf_fold_lf Pf_ws_run.
+
+Definition first_ok (l : list N) : bool :=
+  match l with c :: _ => negb (is 10 c) && negb (is 13 c) | [] => true end.
+Lemma first_ok_not_eol l : first_ok l = true -> not_eol_start l = true.
+Proof.
+  destruct l as [|c r]; [reflexivity|]. cbn [first_ok not_eol_start]. intros H. apply andb_prop in H as [H1 H2].
+  rewrite H1. apply negb_true_iff in H2. rewrite H2. reflexivity.
+Qed.
+Lemma first_ok_app a b : a <> [] -> first_ok a = true -> first_ok (a ++ b) = true.
+Proof. destruct a; [congruence|auto]. Qed.
+
+(* a line that is not the empty line does not start with LF or CR *)
+Lemma line_first_ok first off l x o r :
+  ref_header_line hc first off l = ROk x o r -> x <> LEnd -> first_ok l = true.
+Proof.
+  unfold ref_header_line. destruct l as [|b l']; [discriminate|]. cbn [first_ok].
+  destruct (is 13 b).
+  { destruct l' as [|b2 l2]; [discriminate|]. destruct (is 10 b2); [|discriminate]. intros [= <- _ _] H. congruence. }
+  destruct (is 10 b); [intros [= <- _ _] H; congruence|]. reflexivity.
+Qed.
+Lemma line_end_is_eol first off l o r :
+  ref_header_line hc first off l = ROk LEnd o r ->
+  exists eol, l = eol ++ r /\ (eol = [10%N] \/ eol = [13%N; 10%N]).
+Proof.
+  unfold ref_header_line. destruct l as [|b l']; [discriminate|].
+  destruct (is 13 b) eqn:E13.
+  { apply is_eq in E13. subst b. destruct l' as [|b2 l2]; [discriminate|]. destruct (is 10 b2) eqn:E10; [|discriminate].
+    apply is_eq in E10. subst b2. intros [= _ <-]. exists [13%N; 10%N]. auto. }
+  destruct (is 10 b) eqn:E10.
+  { apply is_eq in E10. subst b. intros [= _ <-]. exists [10%N]. auto. }
+  assert (Inv : forall ig e o0 l0 oo rr, ref_invalid ig e o0 l0 = ROk LEnd oo rr -> False).
+  { intros ig e o0 l0 oo rr H'. unfold ref_invalid in H'. destruct ig; cbn [negb] in H'; [|discriminate].
+    destruct (span _ l0) as [junk rr']. destruct rr' as [|b1 r1]; [discriminate|].
+    destruct (is 0 b1); [discriminate|]. destruct (is 10 b1); [discriminate|].
+    destruct r1 as [|b2 r2']; [discriminate|]. destruct (is 10 b2); discriminate. }
+  assert (Val : forall name o0 l0 oo rr, ref_value hc name o0 l0 = ROk LEnd oo rr -> False).
+  { intros name o0 l0 oo rr H'. unfold ref_value in H'. destruct (ref_value_start hc o0 l0); cbn [rbind] in H'; try discriminate.
+    destruct (dropped a); discriminate. }
+  destruct (negb (tchar b)).
+  { destruct (_ && _ && _); [destruct (span ws (b :: l')); discriminate|]. intros H. exfalso. eapply Inv; eauto. }
+  destruct (span tchar (b :: l')) as [name r1]. destruct r1 as [|c r2]; [discriminate|].
+  destruct (is 58 c); [intros H; exfalso; eapply Val; eauto|].
+  destruct (_ && _).
+  - destruct (span ws (c :: r2)) as [w r3]. destruct r3 as [|c' r4]; [discriminate|].
+    destruct (is 58 c'); intros H; exfalso; [eapply Val|eapply Inv]; eauto.
+  - intros H. exfalso. eapply Inv; eauto.
+Qed.
+
+(* the block: everything before the terminating line is free of empty lines *)
+Definition Bf (body : list N) : Prop := body = [] \/ (first_ok body = true /\ Pf body).
+
+Lemma ref_header_block_framed : forall f cap hs off l n hs',
+  ref_header_block hc f cap hs off l = (Complete n, hs') ->
+  exists body eol r, l = body ++ eol ++ r /\ n = length body + length eol + off /\
+                     (eol = [10%N] \/ eol = [13%N; 10%N]) /\ Bf body.
+Proof.
+  induction f as [|f IH]; intros cap hs off l n hs' H; cbn [ref_header_block] in H; [discriminate|].
+  pose proof (header_line_framed (null hs) off l) as Hc.
+  pose proof (ref_header_line_adv hc (null hs) off l) as Hadv. apply advances_weaken in Hadv.
+  pose proof (consumed_len Pf off l _ Hc Hadv) as Hq.
+  pose proof (line_first_ok (null hs) off l) as Hfo.
+  pose proof (line_end_is_eol (null hs) off l) as Hend.
+  destruct (ref_header_line hc (null hs) off l) as [x o r| |e]; try discriminate.
+  destruct Hq as [q (Hl & HP & ->)].
+  assert (Rec : forall hs0, x <> LEnd -> ref_header_block hc f cap hs0 (length q + off) r = (Complete n, hs') ->
+                exists body eol r0, l = body ++ eol ++ r0 /\ n = length body + length eol + off /\
+                     (eol = [10%N] \/ eol = [13%N; 10%N]) /\ Bf body).
+  { intros hs0 Hx H0. destruct (IH _ _ _ _ _ _ H0) as [body [eol [r0 (Hl2 & -> & Heol & HB)]]].
+    exists (q ++ body), eol, r0. rewrite Hl, Hl2, <- app_assoc, app_length. repeat split; [lia|exact Heol|].
+    right. destruct HP as (Hne & HPf & Hlast).
+    assert (Hfq : first_ok q = true).
+    { specialize (Hfo x _ _ eq_refl Hx). rewrite Hl in Hfo. destruct q; [congruence|exact Hfo]. }
+    split; [apply first_ok_app; assumption|].
+    destruct HB as [->|[Hfb (Hneb & HPfb & Hlastb)]].
+    - rewrite app_nil_r. repeat split; assumption.
+    - repeat split.
+      + destruct q; [congruence|discriminate].
+      + intros t Ht Hf. rewrite <- app_assoc. apply HPf.
+        * apply first_ok_not_eol. apply first_ok_app; assumption.
+        * apply HPfb; assumption.
+      + intros Hs. rewrite last_app_ne by exact Hneb. apply Hlastb. exact Hs. }
+  destruct x as [| |nm v].
+  - injection H as <- <-. destruct (Hend _ _ eq_refl) as [eol [Hle Heol]].
+    exists [], eol, r. cbn [app length]. repeat split; [exact Hle| |exact Heol|left; reflexivity].
+    assert (q = eol).
+    { rewrite Hl in Hle. apply app_inv_tail in Hle. exact Hle. }
+    subst q. lia.
+  - eapply Rec; [discriminate|exact H].
+  - destruct (Nat.ltb (length hs) cap); [eapply Rec; [discriminate|exact H]|discriminate].
+Qed.
+
+Lemma Bf_blank_free body : Bf body -> blank_free (10%N :: body) = true /\ (spb = false -> body = [] \/ last body 0%N = 10%N).
+Proof.
+  intros [->|[Hf (Hne & HP & Hl)]]; [split; [reflexivity|auto]|].
+  split; [|auto]. rewrite blank_free_cons. change (is 10 10) with true. cbn [negb orb].
+  rewrite (first_ok_not_eol _ Hf). cbn [andb]. specialize (HP [] eq_refl eq_refl). rewrite app_nil_r in HP. exact HP.
+Qed.
+End Framing.
+
+(* C03 for the header block: Complete(n) ends with an empty line, and the bytes before it --
+   seen after the LF that ends the start line -- contain no empty line *)
+Theorem ref_headers_framing hc cap off l n hs :
+  ref_headers hc cap off l = (Complete n, hs) ->
+  exists body eol r, l = body ++ eol ++ r /\ n = length body + length eol + off /\
+    (eol = [10%N] \/ eol = [13%N; 10%N]) /\ blank_free (10%N :: body) = true /\
+    (allow_space_before_first_header_name hc = false -> body = [] \/ last body 0%N = 10%N).
+Proof.
+  unfold ref_headers. intros H. apply ref_header_block_framed in H as [body [eol [r (Hl & Hn & He & HB)]]].
+  exists body, eol, r. apply Bf_blank_free in HB as [H1 H2]. repeat split; auto.
+Qed.
